@@ -161,7 +161,7 @@ theorem wf0 : WFTopo s0 where
         exact ⟨_, rfl, rfl⟩
       · simp at hp
 
-theorem sim0 : Sim s0 r0 := by
+theorem sim0 : SimRel0 s0 r0 := by
   refine ⟨a0, ⟨wf0, rep0, rfl, rfl, rfl, ?_, rfl, rfl, ?_, List.Pairwise.nil, ?_, ?_⟩⟩
   · decide
   · intro nd hnd pe hpe name
@@ -183,7 +183,7 @@ theorem apply0 : s0.applyAlt {} h0 (.deliver 0) = .ok s0' := by rfl
 theorem len0' : (procsOf s0').length = 3 := by decide
 theorem len0 : r0.procs.length = 2 := by decide
 
-theorem not_sim0' {r : RState Unit} (hl : r.procs.length = 2) : ¬ Sim s0' r := by
+theorem not_sim0' {r : RState Unit} (hl : r.procs.length = 2) : ¬ SimRel0 s0' r := by
   rintro ⟨a, hw⟩
   have := congrArg List.length hw.procs
   rw [hl, len0'] at this
@@ -217,12 +217,12 @@ theorem overrideFreeRun0 (ls : List Label) : ∀ r : RState Unit, overrideFreeRu
 
 /-- `applyAlt_refines` as stated in `R2.lean` is false -/
 theorem applyAlt_refines_false :
-    ¬ (∀ (h : Handler Unit) {s s' : McSys Unit} {r : RState Unit}, Sim s r →
+    ¬ (∀ (h : Handler Unit) {s s' : McSys Unit} {r : RState Unit}, SimRel0 s r →
       ∀ {ids : List Nat} {id : Nat} {alts : List Alt} {alt : Alt},
       s.available = .ok ids → id ∈ ids → s.alternatives id = .ok alts → alt ∈ alts →
       s.applyAlt {} h alt = .ok s' →
       ∃ l, r.enabledRed s.mode l = true ∧
-        (r.overrideFree h l = true → ∃ r', r.step h l = some r' ∧ Sim s' r')) := by
+        (r.overrideFree h l = true → ∃ r', r.step h l = some r' ∧ SimRel0 s' r')) := by
   intro H
   obtain ⟨l, _, hcont⟩ := H h0 sim0 avail0 (List.mem_singleton.mpr rfl) alts0
     (List.mem_singleton.mpr rfl) apply0
@@ -232,9 +232,9 @@ theorem applyAlt_refines_false :
 /-- `mc_path_sound_partial` as stated in `R2.lean` is false -/
 theorem mc_path_sound_partial_false :
     ¬ (∀ (h : Handler Unit) {s₀ s : McSys Unit} {r₀ : RState Unit} {alts : List Alt},
-      Sim s₀ r₀ → McPath h s₀ alts s →
+      SimRel0 s₀ r₀ → McPath h s₀ alts s →
       ∃ ls, ls.length = alts.length ∧
-        (overrideFreeRun h r₀ ls = true → ∃ r, refRun h s₀.mode r₀ ls = some r ∧ Sim s r)) := by
+        (overrideFreeRun h r₀ ls = true → ∃ r, refRun h s₀.mode r₀ ls = some r ∧ SimRel0 s r)) := by
   intro H
   have hp : McPath h0 s0 [.deliver 0] s0' :=
     McPath.cons avail0 (List.mem_singleton.mpr rfl) alts0 (List.mem_singleton.mpr rfl) apply0
@@ -245,10 +245,10 @@ theorem mc_path_sound_partial_false :
 
 /-- `alternatives_complete` as stated in `R2.lean` is false -/
 theorem alternatives_complete_false :
-    ¬ (∀ (h : Handler Unit) {s : McSys Unit} {r r' : RState Unit}, Sim s r → SendsKnown h s →
+    ¬ (∀ (h : Handler Unit) {s : McSys Unit} {r r' : RState Unit}, SimRel0 s r → SendsKnown h s →
       ∀ {l : Label}, r.enabledRed s.mode l = true → r.step h l = some r' → r.overrideFree h l = true →
       ∃ ids id alts alt s', s.available = .ok ids ∧ id ∈ ids ∧ s.alternatives id = .ok alts ∧ alt ∈ alts ∧
-        s.applyAlt {} h alt = .ok s' ∧ Sim s' r') := by
+        s.applyAlt {} h alt = .ok s' ∧ SimRel0 s' r') := by
   intro H
   have hk : SendsKnown h0 s0 := by
     intro p st i a ha
@@ -283,11 +283,11 @@ theorem len0L : (procsOf s0L).length = 3 := by decide
 
 /-- `Sim.sendLocal` as stated in `R2.lean` is false -/
 theorem sendLocal_false :
-    ¬ (∀ (h : Handler Unit) {s s' : McSys Unit} {r : RState Unit}, Sim s r → ∀ (node p : Nat) (m : Msg),
+    ¬ (∀ (h : Handler Unit) {s s' : McSys Unit} {r : RState Unit}, SimRel0 s r → ∀ (node p : Nat) (m : Msg),
       amGet? p s.net.procLoc = some node → s.sendLocal {} h node p m = .ok s' →
       (∀ e, amGet? p r.procs = some e →
         RState.overrideFreeActs { r with trace := r.trace ++ [LogE.lrecv m p] } p (h p e.st (.loc m)).2 = true) →
-      ∃ r', r.sendLocal h p m = some r' ∧ Sim s' r') := by
+      ∃ r', r.sendLocal h p m = some r' ∧ SimRel0 s' r') := by
   intro H
   obtain ⟨r', hstep, a, hw⟩ := H h0 sim0 1 1 ⟨0, []⟩ (by decide) sendLocal0 (fun e _ => rfl)
   have h1 := congrArg List.length hw.procs
@@ -345,7 +345,7 @@ theorem wf1 : WFTopo s1 where
       exact ⟨_, rfl, rfl⟩
     · simp at hp
 
-theorem sim1 : Sim s1 r1 := by
+theorem sim1 : SimRel0 s1 r1 := by
   refine ⟨a1, ⟨wf1, repT, rfl, rfl, rfl, ?_, rfl, rfl, ?_, ?_, ?_, ?_⟩⟩
   · decide
   · intro nd hnd pe hpe name
@@ -379,8 +379,8 @@ theorem crash1 : s1.crashNode {} 0 = .ok s1' := by rfl
 
 /-- `Sim.crashNode` as stated in `R2.lean` is false -/
 theorem crashNode_false :
-    ¬ (∀ {s s' : McSys Unit} {r : RState Unit}, Sim s r → ∀ (node : Nat), s.crashNode {} node = .ok s' →
-      ∃ order, order.Perm (r.lostOnCrash node) ∧ Sim s' (r.crashNode node order)) := by
+    ¬ (∀ {s s' : McSys Unit} {r : RState Unit}, SimRel0 s r → ∀ (node : Nat), s.crashNode {} node = .ok s' →
+      ∃ order, order.Perm (r.lostOnCrash node) ∧ SimRel0 s' (r.crashNode node order)) := by
   intro H
   obtain ⟨order, _, a, hw⟩ := H sim1 0 crash1
   have hmem : ((0, { procs := [(0, { st := (), pending := [5] })], crashed := true }) :
